@@ -86,6 +86,13 @@ THEOREMS = [
     "Spydr.Eblif.eblif_roundtrip_any_order",
     "Spydr.Eblif.fragFull_in",
     "Spydr.Eblif.fragAny_in",
+    "Spydr.Eblif.eblif_roundtrip_covers",
+    "Spydr.Eblif.eblif_covers_read",
+    "Spydr.Eblif.eblif_self_contained_text",
+    "Spydr.Eblif.eblif_undeclared_leaf_text",
+    "Spydr.Eblif.eblif_onNet_exact_text",
+    "Spydr.Eblif.leaf_port_shrinks",
+    "Spydr.Eblif.eblif_roundtrip_leaf_ports",
 ]
 MODULES = ["Spydr.Eblif.Props.C18", "Spydr.Eblif.Props.C18RoundTrip", "Spydr.Eblif.Props.C18ReadOk", "Spydr.Eblif.Props.C18Ports", "Spydr.Eblif.Props.C18BlackBox", "Spydr.Eblif.Props.C18FullParse", "Spydr.Eblif.Props.C18GenDefs", "Spydr.Eblif.Props.C18Mirror", "Spydr.Eblif.Props.C18Full", "Spydr.Eblif.Props.C18Any", "Spydr.Eblif.FragCheck"]
 
@@ -407,6 +414,7 @@ def theorem_reach(res, text, drv, opts, texts):
             except Exception:
                 r = {}
             res.dist("theorem_fragment:eblif_roundtrip_any_order%s:%s" % (suffix, r.get("any", "out:driver-error")))
+            res.dist("theorem_fragment:eblif_roundtrip_leaf_ports%s:%s" % (suffix, r.get("leaf", "out:driver-error")))
             res.dist("theorem_fragment:eblif_roundtrip_full%s:%s" % (suffix, r.get("full", "out:driver-error")))
             res.dist("theorem_fragment:eblif_roundtrip_subckt_total%s:%s" % (suffix, r.get("subckt", "out:driver-error")))
 
